@@ -218,15 +218,14 @@ class Ctx:
                     default=str,
                 )
             )
-            seen = set()
+            per_rule: dict[str, int] = {}
             for f in unlisted:
-                if f.rule in seen and len(seen) > 0 and sum(1 for _ in seen) > 12:
-                    continue
-                print(f"  UNDISCHARGED {f.rule}: {f.construct}: {f.message}")
-                seen.add(f.key)
-                if len(seen) >= 25:
-                    print(f"  ... {len(unlisted) - 25} more in {path}")
-                    break
+                per_rule[f.rule] = per_rule.get(f.rule, 0) + 1
+                if per_rule[f.rule] <= 4:
+                    print(f"  UNDISCHARGED {f.rule}: {f.construct}: {f.message}")
+            for r, c in per_rule.items():
+                if c > 4:
+                    print(f"  ... {r}: {c} undischarged in total, see {path}")
             print(f"VIOLATION property={self.prop} replay={path}")
             return 1
         return 0
